@@ -92,3 +92,10 @@ Example C15_ex_group :
   group_keys 4 [[110;58;97]; [110;58;98]; [110;58;97]; [110;58;99]] <> [] /\
   fst (del_keys [[110;58;97]; [110;58;98]; [110;58;97]] [[110;58;97]; [110;58;120]]) = 1.
 Proof. split; [vm_compute; discriminate|vm_compute; reflexivity]. Qed.
+
+(* (8) PLSET data: for every pair list (duplicates included) and every key, the value found in the
+   store of the key's own partition after the merged PLSET is the value a single store would hold
+   after the same SETs in order *)
+Theorem C15_plset_value : forall pnum l k, plset_get pnum l k = kv_get k (apply_sets l []).
+Proof. exact plset_get_eq. Qed.
+Print Assumptions C15_plset_value.
